@@ -38,6 +38,12 @@ ID_KEYS = {"uuid", "id"}
 
 # ------------------------------------------------------------------------------------ partial evaluation
 
+# declared type pairs (data field, document field) that store the same values (one reason each)
+SAME_VALUE_TYPES = {
+    ("EmailStr", "str"),  # EmailStr is a validated str: the string itself is stored
+}
+
+
 def is_empty_container(t) -> bool:
     if t[0] in ("list", "dict", "tuple", "set") and len(t[1]) == 0:
         return True
@@ -442,6 +448,24 @@ class C01:
                         witness={"written_to": G, "read_from": back})
             else:
                 ctx.ok("R01.2", rsite, f"{D.name}.{f} <-> {O.name}.{'/'.join(G)}")
+        # R01.8 a field copied as it is must have a document field of the same declared type (no narrowing codec)
+        if only is None or True:
+            for g, v in wk.items():
+                if only is not None and g not in only:
+                    continue
+                vv = v[2] if v[0] == "from_super" else v
+                sp = split_ite_none(vv)
+                if sp:
+                    vv = sp[1]
+                if vv[0] == "attr" and vv[1] == wobj and vv[2] in Df and g in Of:
+                    a, b = strip_opt(Df[vv[2]].shape), strip_opt(Of[g].shape)
+                    if a == b or (shape_str(a), shape_str(b)) in SAME_VALUE_TYPES:
+                        ctx.ok("R01.8", wsite, f"{D.name}.{vv[2]}: {shape_str(a)} stored as {O.name}.{g}: {shape_str(b)}")
+                    else:
+                        ctx.bad("R01.8", wowner.module.relpath, f"{wowner.name}.{wmeth}", f"{D.name}.{vv[2]}: {shape_str(a)} -> {O.name}.{g}: {shape_str(b)}",
+                                f"{D.name}.{vv[2]} is declared {shape_str(a)} but the document field {O.name}.{g} that stores it is "
+                                f"{shape_str(b)}: values are coerced on save (narrowed, truncated or re-parsed) and do not come back equal",
+                                Of[g].node.lineno, witness={"data_type": shape_str(a), "document_type": shape_str(b)})
         for g in wk:
             extra = [f for f in W[g]]
             if len(extra) > 1:
@@ -1089,6 +1113,7 @@ def conjuncts_(t):
 
 def run(ctx: Ctx):
     ctx.rule("R01.7", "reader registration discipline; term codec (label); save/load codec options", 27)
+    ctx.rule("R01.8", "a field stored as it is has a document field of the same declared type", 60)
     ctx.rule("R01.1", "field carry: every declared field written, supplied on read; every document field consumed", 200)
     ctx.rule("R01.2", "writer and reader field maps are mutually inverse", 80)
     ctx.rule("R01.3", "every elision by the writer is restored by the reader; no scalar truthiness elision", 30)
